@@ -48,7 +48,7 @@ type c06Stream struct {
 	EOFAfterChunks     bool // the client half-closes right after the chunks
 	Rule, Carried      string
 	Drain              string
-	Conn               string // seg | fill | nodl | tcp
+	Conn               string // seg | fill | nodl | tcp | prefixed (seg behind a prefix-replaying wrapper, see c06PrefixConn)
 	Adapt              func(n int) [][]byte
 	Tail               []byte
 	Kind               string // structural tag used in violation signatures
@@ -73,6 +73,8 @@ type c06StreamObs struct {
 	FirstP     int
 	Reads      int
 	PongAtPeer bool
+	// DataWithErr: Reads of the conn handed to the sniffer that returned n > 0 together with an error
+	DataWithErr int
 }
 
 func c06Outcome(name string, err error) string {
@@ -197,7 +199,17 @@ func c06RunStream(c *c06Stream, timeout time.Duration) (o c06StreamObs) {
 	if c.FailRead > 0 {
 		conn.failAfter, conn.failErr = c.FailRead, &net.OpError{Op: "read", Net: "tcp", Err: errors.New("connection reset by peer")}
 	}
-	cs := NewConnSniffer(conn, timeout)
+	var rw net.Conn = conn
+	var pc *c06PrefixConn
+	if c.Conn == "prefixed" {
+		// a prefetch step took the client's first segment (at most 16 bytes) off the socket before
+		// the sniffer was created; the sniffer reads through the wrapper that replays it
+		pre := make([]byte, 16)
+		k, _ := conn.Read(pre)
+		pc = &c06PrefixConn{c06Conn: conn, prefix: pre[:k]}
+		rw = pc
+	}
+	cs := NewConnSniffer(rw, timeout)
 	done := make(chan struct{})
 	phase := "sniff"
 	go func() {
@@ -242,6 +254,9 @@ func c06RunStream(c *c06Stream, timeout time.Duration) (o c06StreamObs) {
 	o.PongAtPeer = bytes.Equal(conn.written, c06Pong)
 	conn.mu.Unlock()
 	_ = cs.Close()
+	if pc != nil {
+		o.DataWithErr = int(pc.dataWithErr.Load())
+	}
 	return o
 }
 
